@@ -3,6 +3,7 @@ package sim
 import (
 	"context"
 	"fmt"
+	"sync/atomic"
 	"strconv"
 	"strings"
 	"sync"
@@ -32,6 +33,9 @@ type qOp struct {
 	afterCancel bool
 }
 
+// endMarker is the value under which the end-of-stream sentinel travels through the model.
+const endMarker = ^uint64(0)
+
 type qIn struct {
 	kind string
 	arg  uint64
@@ -52,8 +56,12 @@ var queueModel = porcupine.Model{
 			items = strings.Split(st, ",")
 		}
 		switch in.kind {
-		case "push":
-			items = append(items, strconv.FormatUint(in.arg, 10))
+		case "push", "push-end":
+			v := in.arg
+			if in.kind == "push-end" {
+				v = endMarker
+			}
+			items = append(items, strconv.FormatUint(v, 10))
 			return true, strings.Join(items, ",")
 		case "pull":
 			if !out.ok { // cancelled: no effect (legality w.r.t. cancellation is checked outside the model)
@@ -104,6 +112,7 @@ func scQueueDirect(r *Run) {
 	cancelled := false
 	var pushed, pulled []uint64
 	quietObserve := false
+	endPushed := false
 
 	observe := func() {
 		// stamp completions seen at this rest point
@@ -143,9 +152,15 @@ func scQueueDirect(r *Run) {
 				op.ok = true
 			case "wait":
 				op.ok = q.WaitUntilSizeIsBelow(ctx, int(arg))
+			case "push-end":
+				q.PushEnd()
+				op.ok = true
 			case "pull":
-				id, _, ok := q.Pull(ctx)
+				id, end, ok := q.Pull(ctx)
 				op.ok, op.val = ok, id
+				if ok && end {
+					op.val = endMarker
+				}
 			}
 			op.mu.Lock()
 			op.done = true
@@ -159,6 +174,21 @@ func scQueueDirect(r *Run) {
 			return
 		}
 		n := q.Len()
+		// what the queue must hold according to the completed operations (the end marker counts as an entry)
+		model := 0
+		for _, op := range ops {
+			if op.ret != 0 && op.ok {
+				switch op.kind {
+				case "push", "push-end":
+					model++
+				case "pull":
+					model--
+				}
+			}
+		}
+		if model > n {
+			n = model
+		}
 		for _, op := range pending {
 			var t *Task
 			if op.client == 0 {
@@ -194,13 +224,21 @@ func scQueueDirect(r *Run) {
 			break
 		}
 		var acts []Action
-		if P.Idle() {
+		if P.Idle() && !endPushed {
 			acts = append(acts, Action{"producer push", 4, func() {
 				id := nextID
 				nextID++
 				pushed = append(pushed, id)
 				start(P, 0, "push", id)
 			}})
+			acts = append(acts, Action{"producer push-end", 1, func() {
+				endPushed = true
+				pushed = append(pushed, endMarker)
+				start(P, 0, "push-end", 0)
+				r.Probe("end-marker-pushed")
+			}})
+		}
+		if P.Idle() {
 			for _, n := range []uint64{0, 1, 2} {
 				n := n
 				acts = append(acts, Action{fmt.Sprintf("producer wait(%d)", n), 2, func() { start(P, 0, "wait", n) }})
@@ -268,9 +306,12 @@ func scQueueDirect(r *Run) {
 		dctx := context.Background()
 		rest := []uint64{}
 		for q.Len() > 0 {
-			id, _, ok := q.Pull(dctx)
+			id, end, ok := q.Pull(dctx)
 			if !ok {
 				break
+			}
+			if end {
+				id = endMarker
 			}
 			rest = append(rest, id)
 		}
@@ -322,4 +363,92 @@ func scQueueDirect(r *Run) {
 	}
 	r.StopTasks()
 	r.Stats.Sample = nil
+}
+
+// scQueueBurst: true concurrency instead of scheduled interleaving. One scheduler step releases the producer
+// and the consumer together; they hammer the queue as fast as the Go runtime lets them, so that windows
+// between two critical sections that carry no yield hook are reached by real preemption. Which interleavings
+// occur is not decided by the tape (replay = re-running the seed); what is judged is only the state at rest:
+// when both sides are durably blocked or finished, a consumer waiting on a non-empty queue (by the count of
+// completed operations) or a producer waiting although the backlog is at or below its threshold is a lost
+// wake-up, and everything pushed must have been pulled in order exactly once.
+func scQueueBurst(r *Run) {
+	T := r.T
+	q := gohlslib.NewVerifSegmentQueue()
+	ctx, cancel := context.WithCancel(context.Background())
+	defer cancel()
+	n := Pick(T, 2000, 5000, 20000)
+	threshold := Pick(T, 0, 1, 1, 2)
+	withEnd := T.Chance(1, 2)
+	r.Tracef("burst n=%d threshold=%d end=%v", n, threshold, withEnd)
+	P := r.Go("producer")
+	C := r.Go("consumer")
+	var pulledN, pushedN atomic.Int64
+	var bad atomic.Value
+	prodDone, consDone := false, false
+	r.Step()
+	P.StartNoWait(func() {
+		for i := 1; i <= n; i++ {
+			q.Push(uint64(i))
+			pushedN.Add(1)
+			if !q.WaitUntilSizeIsBelow(ctx, threshold) {
+				return
+			}
+		}
+		if withEnd {
+			q.PushEnd()
+			pushedN.Add(1)
+		}
+		prodDone = true
+	})
+	C.StartNoWait(func() {
+		want := uint64(1)
+		for {
+			id, end, ok := q.Pull(ctx)
+			if !ok {
+				return
+			}
+			pulledN.Add(1)
+			if end {
+				if int(want) != n+1 {
+					bad.Store(fmt.Sprintf("end marker pulled after %d of %d segments", want-1, n))
+				}
+				consDone = true
+				return
+			}
+			if id != want {
+				bad.Store(fmt.Sprintf("pulled segment %d, expected %d (FIFO, exactly once)", id, want))
+				return
+			}
+			want++
+			if !withEnd && int(want) == n+1 {
+				consDone = true
+				return
+			}
+		}
+	})
+	syncWait()
+	r.Stats.NonTrivial = true
+	if v := bad.Load(); v != nil {
+		r.Fail("fifo-exactly-once", "burst", "%s", v.(string))
+	} else if !prodDone || !consDone {
+		pending := pushedN.Load() - pulledN.Load()
+		switch {
+		case C.Blocked() && pending > 0:
+			r.Fail("lost-wakeup", "pull-burst", "at rest the consumer is blocked in pull although %d pushed segment(s) were not pulled yet (after %d pushes)", pending, pushedN.Load())
+		case P.Blocked() && int(pending) <= threshold && !prodDone:
+			r.Fail("lost-wakeup", "waitUntilSizeIsBelow-burst", "at rest the producer is blocked in waitUntilSizeIsBelow(%d) although only %d segment(s) wait (after %d pushes)", threshold, pending, pushedN.Load())
+		default:
+			r.Fail("stuck", "burst", "producer done=%v consumer done=%v pushed=%d pulled=%d", prodDone, consDone, pushedN.Load(), pulledN.Load())
+		}
+	} else {
+		r.Probe("burst-completed")
+	}
+	cancel()
+	syncWait()
+	r.StopTasks()
+}
+
+func init() {
+	Properties["C20"].Profiles = append(Properties["C20"].Profiles, ProfileDef{Name: "queue-burst", Share: 1, Sc: scQueueBurst})
 }
